@@ -71,6 +71,9 @@ pub struct Case<'a> {
     pub dead: Vec<Tt>,
     pub gc_before: bool,
     pub perms: &'a [Vec<u32>],
+    /// variables no function may depend on (their levels stay empty); the tables are made
+    /// independent of them per kind (ZBDD: no member set contains them)
+    pub unused: Vec<u32>,
 }
 
 pub fn run_case<K: BoolKind>(ctx: &mut Ctx, c: &Case, rng: &mut Rng)
@@ -88,10 +91,21 @@ where
     }
     let mut w = World::<K>::new(1 << 14, 1 << 10, c.threads, c.n, label);
     set_order(&w.mref, c.src);
-    for t in &c.dead {
+    let strip = |t: &Tt| -> Tt {
+        let mut t = t.clone();
+        for &v in &c.unused {
+            t = t.restrict(&[(v, false)]);
+            if K::SEM == Sem::ZeroSup {
+                t = t.and(&Tt::var(c.n, v).not());
+            }
+        }
+        t
+    };
+    let (dead, tables): (Vec<Tt>, Vec<Tt>) = (c.dead.iter().map(&strip).collect(), c.tables.iter().map(&strip).collect());
+    for t in &dead {
         let _ = build_shannon::<K>(&w.mref, t);
     }
-    for t in &c.tables {
+    for t in &tables {
         let f = if rng.bool() { build_shannon::<K>(&w.mref, t) } else { build_minterms::<K>(&w.mref, t) };
         w.hs.push(Entry { f, t: t.clone() });
     }
@@ -259,7 +273,7 @@ pub fn exhaustive(ctx: &mut Ctx) {
                     if !mine {
                         continue;
                     }
-                    let c = Case { n: 3, src, req, seq, threads: if seq { 1 } else { 2 }, tables: all256.clone(), dead: vec![], gc_before: false, perms: &perms3 };
+                    let c = Case { n: 3, src, req, seq, threads: if seq { 1 } else { 2 }, tables: all256.clone(), dead: vec![], gc_before: false, perms: &perms3, unused: vec![] };
                     dispatch(ctx, kind, &c, &mut rng);
                 }
             }
@@ -289,7 +303,7 @@ pub fn exhaustive(ctx: &mut Ctx) {
                 let tables: Vec<Tt> = (0..nfun).map(|_| Tt::random_biased(4, &mut rng)).collect();
                 let dead: Vec<Tt> = (0..10).map(|_| Tt::random(4, &mut rng)).collect();
                 let seq = rng.bool();
-                let c = Case { n: 4, src, req, seq, threads: if seq { 1 } else { 2 }, tables, dead, gc_before: rng.bool(), perms: &perms4 };
+                let c = Case { n: 4, src, req, seq, threads: if seq { 1 } else { 2 }, tables, dead, gc_before: rng.bool(), perms: &perms4, unused: vec![] };
                 dispatch(ctx, kind, &c, &mut rng);
             }
         }
@@ -310,6 +324,21 @@ pub fn random(ctx: &mut Ctx) {
             let k = rng.range(2, n as usize);
             req.truncate(k);
         }
+        // every third case: 1..3 variables that no function depends on (empty levels), and a request with
+        // exactly as many entries as there are populated levels that names some of the unused variables
+        let mut unused: Vec<u32> = Vec::new();
+        if i % 3 == 2 {
+            let mut vs = rng.perm(n as usize);
+            vs.truncate(rng.range(1, 3));
+            unused = vs;
+            let mut used: Vec<u32> = (0..n).filter(|v| !unused.contains(v)).collect();
+            rng.shuffle(&mut used);
+            let named_unused = rng.range(1, unused.len().min(n as usize - unused.len() - 1));
+            req = unused[..named_unused].to_vec();
+            req.extend(used.iter().copied().take(n as usize - unused.len() - named_unused));
+            rng.shuffle(&mut req);
+            ctx.count("cases_with_empty_levels", 1);
+        }
         let nf = rng.range(1, 30);
         let tables: Vec<Tt> = (0..nf).map(|_| Tt::random_biased(n, &mut rng)).collect();
         let dead: Vec<Tt> = (0..rng.range(0, 8)).map(|_| Tt::random(n, &mut rng)).collect();
@@ -325,6 +354,7 @@ pub fn random(ctx: &mut Ctx) {
             dead,
             gc_before: rng.bool(),
             perms: if n <= 7 { &perms[n as usize] } else { &empty },
+            unused: unused.clone(),
         };
         for &kind in &kinds {
             dispatch(ctx, kind, &c, &mut rng);
@@ -347,7 +377,7 @@ pub fn single(ctx: &mut Ctx) {
     let tables: Vec<Tt> = parts[6].split(',').map(|h| Tt::from_u64(n, u64::from_str_radix(h.trim_start_matches("0x"), 16).unwrap())).collect();
     let perms = all_perms(n as usize);
     let mut rng = ctx.rng(1);
-    let c = Case { n, src: &src, req: &req, seq, threads, tables, dead: vec![], gc_before: false, perms: &perms };
+    let c = Case { n, src: &src, req: &req, seq, threads, tables, dead: vec![], gc_before: false, perms: &perms, unused: vec![] };
     dispatch(ctx, kind, &c, &mut rng);
 }
 
